@@ -537,3 +537,107 @@ pub fn range_edge_text(k: FloatKind, rx: Radices, point: u8, exp_char: u8) -> Bo
         })
         .boxed()
 }
+
+// ---------------------------------------------------------------------------------------------
+// integers (erased: two's complement, sign-extended to 128 bits)
+
+/// truncate/sign-extend `x` to a `bits`-wide integer stored in u128
+pub fn wrap_int(x: u128, bits: u32, signed: bool) -> u128 {
+    if bits == 128 {
+        return x;
+    }
+    let mask = (1u128 << bits) - 1;
+    let v = x & mask;
+    if signed && (v >> (bits - 1)) & 1 == 1 {
+        v | !mask
+    } else {
+        v
+    }
+}
+
+pub fn int_min(bits: u32, signed: bool) -> u128 {
+    if signed {
+        wrap_int(1u128 << (bits - 1), bits, true)
+    } else {
+        0
+    }
+}
+pub fn int_max(bits: u32, signed: bool) -> u128 {
+    if signed {
+        (1u128 << (bits - 1)) - 1
+    } else if bits == 128 {
+        u128::MAX
+    } else {
+        (1u128 << bits) - 1
+    }
+}
+
+/// Integer values with structure relevant to digit counting and chunked writing in `radix`.
+pub fn int_value(bits: u32, signed: bool, radix: u32) -> BoxedStrategy<u128> {
+    let r = radix as u128;
+    // digits that fit in u64 for this radix
+    let mut step = 0u32;
+    let mut p = 1u64;
+    while p.checked_mul(radix as u64).is_some() {
+        p *= radix as u64;
+        step += 1;
+    }
+    let rs = p as u128; // r^step
+    let uniform = any::<u128>();
+    let log_uniform = (0u32..=bits, any::<u128>()).prop_map(move |(b, x)| if b == 0 { 0 } else if b == 128 { x } else { (x & ((1u128 << b) - 1)) | (1u128 << (b - 1)) });
+    let pow_edges = (0u32..130, 0u8..3).prop_map(move |(k, d)| {
+        let mut v: u128 = 1;
+        for _ in 0..k {
+            v = match v.checked_mul(r) {
+                Some(x) => x,
+                None => break,
+            };
+        }
+        match d {
+            0 => v.wrapping_sub(1),
+            1 => v,
+            _ => v.wrapping_add(1),
+        }
+    });
+    let chunk = move || prop_oneof![Just(0u128), Just(1u128), Just(rs - 1), any::<u64>().prop_map(move |x| (x as u128) % rs)];
+    let products = (chunk(), chunk(), chunk()).prop_map(move |(hi, mid, lo)| hi.wrapping_mul(rs).wrapping_mul(rs).wrapping_add(mid.wrapping_mul(rs)).wrapping_add(lo));
+    let edges = prop_oneof![
+        Just(int_min(bits, signed)),
+        Just(int_min(bits, signed).wrapping_add(1)),
+        Just(u128::MAX), // -1 for signed, MAX for unsigned 128
+        Just(0u128),
+        Just(1u128),
+        Just(int_max(bits, signed)),
+        Just(int_max(bits, signed).wrapping_sub(1)),
+    ];
+    (prop_oneof![3 => uniform, 4 => log_uniform, 3 => pow_edges, 2 => products, 1 => edges], any::<bool>())
+        .prop_map(move |(v, neg)| {
+            let v = if signed && neg { v.wrapping_neg() } else { v };
+            wrap_int(v, bits, signed)
+        })
+        .boxed()
+}
+
+/// Reference numeral of an erased integer: '-' for negatives, optional '+', digits 0-9A-Z.
+pub fn ref_numeral(v: u128, bits: u32, signed: bool, radix: u32, plus: bool) -> Vec<u8> {
+    let v = wrap_int(v, bits, signed);
+    let neg = signed && (v >> 127) & 1 == 1;
+    let mut mag: u128 = if neg { v.wrapping_neg() } else { v };
+    let mut digits = Vec::new();
+    if mag == 0 {
+        digits.push(b'0');
+    }
+    while mag > 0 {
+        digits.push(digit_char((mag % radix as u128) as u8));
+        mag /= radix as u128;
+    }
+    let mut out = Vec::new();
+    if neg {
+        out.push(b'-');
+    } else if plus {
+        out.push(b'+');
+    }
+    digits.reverse();
+    out.extend(digits);
+    out
+}
